@@ -198,6 +198,34 @@ def check_truth(prog: Program, res: Result) -> None:
                         res.ob("C09-truth", True, fi.qualname, f"length test {short(n.test, 60)}", "", sample=short(n.test, 60))
                     if isinstance(c, ast.Name) and c.id in idx and isinstance(getattr(c, "_parent", None), (ast.If, ast.BoolOp, ast.UnaryOp)):
                         res.count("C09-truth")
+    # track ids are integers starting at 0: "has a track" is `is not None`, never truthiness
+    def _truthy_operands(t):
+        if isinstance(t, ast.BoolOp):
+            for v in t.values:
+                yield from _truthy_operands(v)
+        elif isinstance(t, ast.UnaryOp) and isinstance(t.op, ast.Not):
+            yield from _truthy_operands(t.operand)
+        elif isinstance(t, (ast.Name, ast.Attribute, ast.Subscript)):
+            yield t
+
+    n_tid = 0
+    for fi in prog.all_functions():
+        if not fi.module.name.startswith("sleap_nn.tracking"):
+            continue
+        for n in walk_function(fi.node):
+            tests = [n.test] if isinstance(n, (ast.If, ast.While, ast.IfExp)) else ([i_ for g_ in n.generators for i_ in g_.ifs] if isinstance(n, (ast.ListComp, ast.GeneratorExp, ast.SetComp, ast.DictComp)) else [])
+            for t in tests:
+                for c in ast.walk(t):
+                    if isinstance(c, ast.Compare) and any(isinstance(o, (ast.Is, ast.IsNot)) for o in c.ops) and "track_id" in norm(c.left):
+                        n_tid += 1
+                        res.ob("C09-truth", True, fi.qualname, f"track id tested by identity: {short(c, 50)}", "", sample=short(c, 60))
+                for o in _truthy_operands(t):
+                    x = astq.xnorm(fi.node, o)
+                    if "track_id" in x and "track_ids)" not in x:
+                        res.touch(fi)
+                        res.ob("C09-truth", False, fi.qualname, f"truthiness of a track id: {short(o, 40)}",
+                               f"`{short(t, 50)}` tests a track id by truthiness: track id 0 is falsy, so the animal holding track 0 is treated as untracked "
+                               "(it gets a second identity / loses its track)", f"{fi.module.relpath}:{o.lineno}")
     res.extra["functions_with_index_containers"] = n_fn
     res.floor("C09-truth", 2)
 
@@ -453,6 +481,8 @@ def check(prog: Program, res: Result) -> None:
     check_once(prog, res)
     check_iface(prog, res)
     check_inf(prog, res, "C09-inf", "sleap_nn.tracking")
+    from . import _nanred
+    _nanred.check_nan_reductions(prog, res, "C09-nan", ["sleap_nn.tracking.utils:get_bbox", "sleap_nn.tracking.utils:get_centroid"], floor=3)
     _match.check_greedy(prog, res, "C09-match")
     check_unmatched(prog, res)
     res.assumptions += [
@@ -465,6 +495,7 @@ LQF = "sleap_nn/tracking/candidates/local_queues.py"
 TRF = "sleap_nn/tracking/tracker.py"
 UTF = "sleap_nn/tracking/utils.py"
 VARIANTS = [
+    Variant("truth-track-id-falsy", FWF, "                and current_instances.track_ids[i] is None", "                and not current_instances.track_ids[i]", "C09-truth"),
     Variant("truth-any", FWF, "        if len(row_inds) > 0 and len(col_inds) > 0:", "        if np.any(row_inds) and np.any(col_inds):", "C09-truth"),
     Variant("truth-method-any", LQF, "        if len(row_inds) > 0 and len(col_inds) > 0:", "        if row_inds.any() and len(col_inds) > 0:", "C09-truth"),
     Variant("arity-element", LQF, "                    self.add_new_tracks([current_instances[ind]])", "                    self.add_new_tracks(current_instances[ind])", "C09-arity"),
